@@ -1053,7 +1053,7 @@ def query_info_table(ctx):
     ]
     for label, ctes, refs, want_entities, want_ints in probes:
         nodes = [Obj('Identifier', parts=list(r), alias=None) for r in refs]
-        query = Obj('Select', cte=[Obj('CommonTableExpression', name=Obj('Identifier', parts=[c], alias=None), query=Obj('Select')) for c in ctes] or None,
+        query = Obj('Select', cte=[Obj('CommonTableExpression', columns=[], name=Obj('Identifier', parts=[c], alias=None), query=Obj('Select')) for c in ctes] or None,
                     _visits=[(n, dict(is_table=True, is_target=False, parent_query=None, callstack=[])) for n in nodes])
         self_ = Obj('QueryPlanner', projects=['mindsdb', 'proj'], databases=['int1', 'int2', 'mindsdb', 'proj'], integrations={'int1': {}, 'int2': {}},
                     default_namespace='mindsdb')
